@@ -543,7 +543,14 @@ func (r *e1run) decode(ui *uriInfo) {
 				r.add("C01", "ts-decode-error", "%s: %v", ui.uri, err)
 				continue
 			}
-			ft.units = append(ft.units, dunit{track: idx, dts: dts, ptsOff: pts - dts, data: au})
+			// MPEG-TS time stamps live on a 33-bit circle (negative times wrap): the offset is taken on the circle
+			off := (pts - dts) % (1 << 33)
+			if off > 1<<32 {
+				off -= 1 << 33
+			} else if off < -(1 << 32) {
+				off += 1 << 33
+			}
+			ft.units = append(ft.units, dunit{track: idx, dts: dts, ptsOff: off, data: au})
 		} else {
 			var pkts mpeg4audio.ADTSPackets
 			if err := pkts.Unmarshal(data.PES.Data); err != nil {
